@@ -236,6 +236,43 @@ func (e *Env) RunScriptWitnesses() {
 	}
 }
 
+// RunRegressionScripts runs every findings/<ID>/*.php that has a .expected file and is not
+// the witness of a listed finding: these are the witnesses of repaired defects, kept as
+// always-run regression inputs. A mismatch is an ordinary (unlisted) violation.
+func (e *Env) RunRegressionScripts() int {
+	dir := filepath.Join(e.Verif, "findings", e.ID)
+	ents, _ := os.ReadDir(dir)
+	n := 0
+	for _, ent := range ents {
+		name := ent.Name()
+		if !strings.HasSuffix(name, ".php") {
+			continue
+		}
+		rel := filepath.Join("findings", e.ID, name)
+		listed := false
+		for _, fd := range e.findings {
+			if fd.Witness == rel {
+				listed = true
+			}
+		}
+		want, err := os.ReadFile(filepath.Join(dir, strings.TrimSuffix(name, ".php")+".expected"))
+		if listed || err != nil {
+			continue
+		}
+		r := RunProc(ProcSpec{Argv: []string{e.Origami(), filepath.Join(dir, name)}, Timeout: 60 * time.Second, Dir: e.Scratch})
+		n++
+		if r.TimedOut {
+			e.Inconclusive("regression script " + name + ": watchdog")
+			continue
+		}
+		if r.Stdout != string(want) {
+			src, _ := os.ReadFile(filepath.Join(dir, name))
+			e.Violation("regress:"+name, "regression input of a repaired defect fails again: expected stdout "+strconv.Quote(string(want))+", got "+strconv.Quote(r.Stdout), "php", src)
+		}
+	}
+	return n
+}
+
 // ---------------------------------------------------------------------------------
 // verdicts
 
